@@ -96,6 +96,17 @@ def cli_check_one(binp, build, mode, content):
         rc2, out2 = cli_run(binp, build, content, 'fmt-check')
         if rc2 == 0:
             return True, '`zydeco fmt --check` accepted a file that `check` rejects: the formatter did not see the whole file'
+        # `zydeco fmt` in place: it must fail, or at least not write less program than it read
+        d = os.path.join(build, 'cli-work')
+        f = os.path.join(d, 'w.zy')
+        open(f, 'w', encoding='utf-8').write(content)
+        try:
+            p = subprocess.run([binp, 'fmt', f], env=dict(os.environ, RUST_BACKTRACE='0', NO_COLOR='1'), stdout=subprocess.PIPE, stderr=subprocess.PIPE, text=True, timeout=60)
+            after = open(f, encoding='utf-8').read()
+            if p.returncode == 0 and after != content:
+                return True, '`zydeco fmt` REWROTE a file that `check` rejects (exit 0): ' + repr(after[:80])
+        except subprocess.TimeoutExpired:
+            return True, '`zydeco fmt` did not terminate within 60 s'
     return False, ''
 
 
